@@ -12,7 +12,7 @@ from vlib.core import exc_site, fmt_exc
 PROPERTY = "C05"
 LEVEL = "exploration"
 CLAIM = {
-    "text": "Exploration by runtime monitoring: (a) seeded random well-formed headers (any subset/order of the 22 recognised keys, extreme finite values, strings of 0..80 chars) produced by an independent encoder are parsed and re-encoded by the library and compared byte-for-byte; (b) random Header objects over all frames, all telescope/backend ids, the full sky incl. declinations in (-1,0) deg and sexagesimal carry cases are written with prep_outfile, re-read with Header.from_sigproc and compared field by field (sky position to 0.01 arcsec via astropy); (c) a full menu of (key,value) edits - valid, wrong type, out of range, longer/shorter strings, absent and unknown keys - is applied with edit_header to files with random data and the whole file is compared byte-for-byte before/after. Azimuths outside [0,360) are included. The thorough tier also runs the repository's own test-suite with parse_header/encode_header/edit_header compared against the independent parser on every call. Rounds 7-8 added: empty strings, and headers derived (prep_outfile updates, dedispersed_header) from hand-built templates whose whole numbers are Python ints. Round 9 added: a well-typed same-length edit of a present key may not be refused (whatever was refused before it), updates to zero, observatory names outside the id table.",
+    "text": "Exploration by runtime monitoring: (a) seeded random well-formed headers (any subset/order of the 22 recognised keys, extreme finite values, strings of 0..80 chars) produced by an independent encoder are parsed and re-encoded by the library and compared byte-for-byte; (b) random Header objects over all frames, all telescope/backend ids, the full sky incl. declinations in (-1,0) deg and sexagesimal carry cases are written with prep_outfile, re-read with Header.from_sigproc and compared field by field (sky position to 0.01 arcsec via astropy); (c) a full menu of (key,value) edits - valid, wrong type, out of range, longer/shorter strings, absent and unknown keys - is applied with edit_header to files with random data and the whole file is compared byte-for-byte before/after. Azimuths outside [0,360) are included. The thorough tier also runs the repository's own test-suite with parse_header/encode_header/edit_header compared against the independent parser on every call. Rounds 7-8 added: empty strings, and headers derived (prep_outfile updates, dedispersed_header) from hand-built templates whose whole numbers are Python ints. Round 9 added: a well-typed same-length edit of a present key may not be refused (whatever was refused before it), updates to zero, observatory names outside the id table. Round 10 added: text edits whose string encoding is exactly as long as the binary field of a numeric key.",
     "design_ref": "DESIGN.md section 3 (C05)",
     "note": "Trusted: struct, astropy SkyCoord/Angle for the separation oracle, vlib/sigfile.py. nbits and nchans are always present and non-zero in generated headers (the reader divides by them).",
     "technique": "runtime monitoring: byte-level encode/parse round trip, field-level object round trip with an astropy separation oracle, whole-file before/after diff for in-place edits",
